@@ -8,6 +8,19 @@ Every statement quantifies over all configurations (own JID, socket state, strea
 on/off) and over operation lists of any length.  A *request* is identified by its request number
 (`req` = the how-many-th send call it was), so "the task returned by that call" keeps its identity
 when stanza ids are re-used.  `reqs log` lists the request numbers of the completions emitted.
+
+What is and is not covered:
+* *Re-entrancy.* A continuation attached to a request task runs synchronously inside the completion.
+  The model has no separate "continuation body": a body that sends, ends or opens a session is the
+  same operations placed right after the completing operation in the history, and every theorem
+  below quantifies over all histories.  This is exact for code that detaches the entry (or, in
+  `cancelAll`, the whole table) before finishing the promise — fixes/C07-reentrant-completion.diff;
+  the unrepaired code loses a request started during `cancelAll` and uses freed map nodes when a
+  continuation ends the session (harness part G under ASan+UBSan: findings `C07:reent:*`).
+* *Timeouts.* The library has no request timeout; a request stays pending while the peer is silent
+  and the session lives or can be resumed (`iq_eventually` names what ends it).
+* *Destruction from inside a continuation* and calls into a client under destruction are outside
+  the contract and not modelled.
 -/
 namespace Qx.C07
 
